@@ -5,6 +5,7 @@ import RQ.Driver.ParseEngine
 import RQ.Driver.SeriesEngine
 import RQ.Driver.PushEngine
 import RQ.Driver.DiffEngine
+import RQ.Driver.AnalysisEngine
 open RQ
 
 def step (line : String) : String :=
@@ -19,6 +20,7 @@ def step (line : String) : String :=
   | some "C" => DiffEngine.step fields
   | some "F" => PushEngine.stepF fields
   | some "T" => ApplyEngine.stepT fields
+  | some "N" => AnalysisEngine.step fields
   | _ => "bad-op"
 
 partial def loop (h : IO.FS.Stream) (out : IO.FS.Stream) : IO Unit := do
